@@ -86,10 +86,9 @@ def inline_unknown(jbodies, known, adts=None):
     pristine = {k: copy.deepcopy(jbodies[k]) for k in helpers}
     counts = {}
     for K, c in jbodies.items():
-        if K in helpers:
-            continue
-        # closures of helpers are reached through their (absorbed) parent; they are bodies of their own
-        stacks = {i: () for i in range(len(c["blocks"]))}
+        # helpers are expanded too (a helper that stays a body of its own - handed on as a function item - may itself
+        # call other helpers); the copies inlined elsewhere are taken from the pristine bodies
+        stacks = {i: ((K,) if K in helpers else ()) for i in range(len(c["blocks"]))}
         i = 0
         absorbed = []
         while i < len(c["blocks"]) and len(c["blocks"]) < MAX_BLOCKS:
